@@ -80,6 +80,35 @@ def _nets(E):
 
         def forward(s, x):
             return s.l(s.f(s.pool(s.m2(torch.relu(s.m1(x))))))
+    class TiedPIT(nn.Module):
+        """two pointwise convolutions excluded from the search that share ONE weight and ONE bias object (tied parameters held
+        by two distinct modules)"""
+        def __init__(s):
+            super().__init__()
+            s.c0 = nn.Conv2d(3, 4, 3, padding=1); s.e1 = nn.Conv2d(4, 4, 1); s.e2 = nn.Conv2d(4, 4, 1)
+            s.e2.weight = s.e1.weight; s.e2.bias = s.e1.bias
+            s.c3 = nn.Conv2d(4, 5, 3, padding=1); s.pool = nn.AdaptiveAvgPool2d(1); s.f = nn.Flatten(); s.l = nn.Linear(5, 3)
+
+        def forward(s, x):
+            a = torch.relu(s.c0(x)); b = s.e2(torch.relu(s.e1(a)))
+            return s.l(s.f(s.pool(torch.relu(s.c3(b)))))
+
+    class TiedSNet(nn.Module):
+        """SuperNet whose first module has two pointwise branches sharing weight and bias objects, and whose second module
+        shares the bias object of its two convolutions"""
+        def __init__(s):
+            super().__init__()
+            b0 = nn.Conv2d(3, 4, 1); b1 = nn.Sequential(nn.Conv2d(3, 4, 1), nn.ReLU())
+            b1[0].weight = b0.weight; b1[0].bias = b0.bias
+            s.m1 = SuperNetModule([b0, b1, nn.Conv2d(3, 4, 3, padding=1)], gumbel_softmax=False, hard_softmax=False)
+            c0 = nn.Conv2d(4, 4, 3, padding=1); c1 = nn.Conv2d(4, 4, 1)
+            c1.bias = c0.bias
+            s.m2 = SuperNetModule([c0, c1, nn.Identity()], gumbel_softmax=True, hard_softmax=False)
+            s.pool = nn.AdaptiveAvgPool2d(1); s.f = nn.Flatten(); s.l = nn.Linear(4, 3)
+
+        def forward(s, x):
+            return s.l(s.f(s.pool(s.m2(torch.relu(s.m1(x))))))
+
     class GNet(nn.Module):
         """interpreter of a node list (see GSPECS); layer i is the sub-module `n<i>`"""
         def __init__(s, nodes, out, dim=2):
@@ -118,7 +147,7 @@ def _nets(E):
                 else:
                     v.append(getattr(s, 'n%d' % i)(v[nd[1]]))
             return v[s.out]
-    return TCN, CNN, QNet, QNet1d, SNet, GNet
+    return TCN, CNN, QNet, QNet1d, SNet, GNet, TiedPIT, TiedSNet
 
 
 # ----------------------------------------------------------------------------- networks given as dataflow
@@ -229,7 +258,7 @@ def io_tied_layers(spec):
     return [i for i, nd in enumerate(nodes) if nd[0] in ('conv', 'lin') and i not in excluded and find(i) in tied]
 
 
-PROTOS_QUICK = ['pit-tcn', 'pit-cnn', 'pit-cnn-foldbn', 'pit-tcn-foldbn', 'mps-chan-gumbel', 'mps-layer-soft', 'sn-mixed'] + sorted(GSPECS)
+PROTOS_QUICK = ['pit-tcn', 'pit-cnn', 'pit-cnn-foldbn', 'pit-tcn-foldbn', 'pit-tied', 'mps-chan-gumbel', 'mps-layer-soft', 'mps-tied', 'sn-mixed', 'sn-tied'] + sorted(GSPECS)
 PROTOS_THOROUGH = PROTOS_QUICK + ['pit-tcn-off', 'mps-1d-hard', 'mps-chan-noshare', 'sn-gumbel-hard']
 
 
@@ -237,7 +266,7 @@ def build(name, E=None, seed=0):
     """-> (method, model (training mode), input batch); weights and the input batch are drawn from `seed`"""
     E = E or env()
     torch = E['torch']
-    TCN, CNN, QNet, QNet1d, SNet, GNet = _nets(E)
+    TCN, CNN, QNet, QNet1d, SNet, GNet, TiedPIT, TiedSNet = _nets(E)
     torch.manual_seed(11 + 1000 * int(seed))
     cost = {'p': E['params'], 'o': E['ops']}
     if name in GSPECS:
@@ -245,6 +274,19 @@ def build(name, E=None, seed=0):
         shape = (sp['nodes'][0][1], 16) if sp.get('dim', 2) == 1 else (sp['nodes'][0][1], 8, 8)
         m = E['PIT'](GNet(sp['nodes'], sp['out'], sp.get('dim', 2)), input_shape=shape, cost=cost, exclude_names=['n%d' % i for i in sp['excluded']], fold_bn=sp.get('fold_bn', False))
         x = torch.randn(2, *shape)
+    elif name == 'pit-tied':
+        m = E['PIT'](TiedPIT(), input_shape=(3, 8, 8), cost=cost, exclude_names=['e1', 'e2'])
+        x = torch.randn(2, 3, 8, 8)
+    elif name == 'sn-tied':
+        m = E['SuperNet'](TiedSNet(), input_shape=(3, 8, 8), cost=cost)
+        x = torch.randn(2, 3, 8, 8)
+    elif name == 'mps-tied':
+        # weight tying done by the user on the converted model: the two parallel convolutions share weight and bias objects
+        m = E['MPS'](QNet(), input_shape=(3, 8, 8), w_search_type=E['MPSType'].PER_LAYER,
+                     qinfo=E['get_default_qinfo'](w_precision=(2, 4, 8), a_precision=(4, 8)), gumbel_softmax=True)
+        m.seed.c2.weight = m.seed.c1.weight
+        m.seed.c2.bias = m.seed.c1.bias
+        x = torch.randn(2, 3, 8, 8)
     elif name.startswith('pit-tcn'):
         kw = dict(train_features=False, train_dilation=False, discrete_cost=True) if name.endswith('off') else dict(fold_bn=True) if name.endswith('foldbn') else {}
         m = E['PIT'](TCN(), input_shape=(3, 16), cost=cost, **kw)
@@ -529,7 +571,7 @@ def describe(method, model, x):
 
 
 # hand-derived ties of the hand-written prototypes (same rule as io_tied_layers, applied by reading `forward`)
-HAND_TIED = {'pit-tcn': ['cin', 'l2'], 'pit-tcn-off': ['cin', 'l2'], 'pit-tcn-foldbn': ['cin', 'l2'], 'pit-cnn': ['l'], 'pit-cnn-foldbn': ['l']}
+HAND_TIED = {'pit-tied': ['c0', 'l'], 'pit-tcn': ['cin', 'l2'], 'pit-tcn-off': ['cin', 'l2'], 'pit-tcn-foldbn': ['cin', 'l2'], 'pit-cnn': ['l'], 'pit-cnn-foldbn': ['l']}
 
 
 def tied_masks(proto, model, S):
